@@ -98,6 +98,21 @@ class S3LockProviderBase(LockProvider):
         self._etag: Optional[str] = None
         self._state_lock = threading.Lock()
 
+    def _lock_body(self) -> bytes:
+        """Content of the lock object: our id plus a per-write nonce.
+
+        S3 derives an object's ETag from its content, so re-writing identical
+        bytes (a renewal) leaves the ETag unchanged - and a takeover's If-Match
+        on the ETag it saw while the lease looked lapsed would still succeed
+        after the holder renewed. The nonce makes every create / takeover /
+        renewal change the ETag, so any write invalidates older If-Match tags.
+        """
+        return f"{self.lock_id}\n{uuid.uuid4().hex}".encode('utf-8')
+
+    def _owns(self, content: str) -> bool:
+        """True if the lock object content was written by this provider."""
+        return content.split("\n", 1)[0] == self.lock_id
+
     def acquire(self) -> bool:
         start_time = time.time()
         while True:
@@ -144,7 +159,7 @@ class S3LockProviderBase(LockProvider):
             try:
                 resp = self.s3.get_object(Bucket=self.bucket, Key=self.key)
                 content = resp['Body'].read().decode('utf-8')
-                if content != self.lock_id:
+                if not self._owns(content):
                     self.is_locked = False
                     return False
                 return True
@@ -206,7 +221,7 @@ class S3LockProviderBase(LockProvider):
             resp = self.s3.get_object(Bucket=self.bucket, Key=self.key)
             content = resp['Body'].read().decode('utf-8')
 
-            if content == self.lock_id:
+            if self._owns(content):
                 self.s3.delete_object(Bucket=self.bucket, Key=self.key)
             else:
                 logger.warning(f"Skipping release of S3 lock at {self.key}: Lock owner changed (expected {self.lock_id}, got {content})")
@@ -248,7 +263,7 @@ class S3LockProvider(S3LockProviderBase):
             resp = self.s3.put_object(
                 Bucket=self.bucket,
                 Key=self.key,
-                Body=self.lock_id.encode('utf-8'),
+                Body=self._lock_body(),
                 IfNoneMatch='*'
             )
             with self._state_lock:
@@ -292,7 +307,7 @@ class S3LockProvider(S3LockProviderBase):
             put_resp = self.s3.put_object(
                 Bucket=self.bucket,
                 Key=self.key,
-                Body=self.lock_id.encode('utf-8'),
+                Body=self._lock_body(),
                 IfMatch=etag,
             )
             with self._state_lock:
@@ -319,7 +334,7 @@ class S3LockProvider(S3LockProviderBase):
             resp = self.s3.put_object(
                 Bucket=self.bucket,
                 Key=self.key,
-                Body=self.lock_id.encode('utf-8'),
+                Body=self._lock_body(),
                 IfMatch=etag,
             )
             with self._state_lock:
@@ -394,7 +409,7 @@ class S3PollingLockProvider(S3LockProviderBase):
         self.s3.put_object(
             Bucket=self.bucket,
             Key=self.key,
-            Body=self.lock_id.encode('utf-8')
+            Body=self._lock_body()
         )
 
         # Step 3: Wait briefly to allow for race condition detection
@@ -405,7 +420,7 @@ class S3PollingLockProvider(S3LockProviderBase):
             resp = self.s3.get_object(Bucket=self.bucket, Key=self.key)
             content = resp['Body'].read().decode('utf-8')
 
-            if content == self.lock_id:
+            if self._owns(content):
                 self._lease_deadline = write_started + self.lease_seconds
                 return True
             else:
@@ -442,7 +457,7 @@ class S3PollingLockProvider(S3LockProviderBase):
             resp = self.s3.get_object(Bucket=self.bucket, Key=self.key)
             content = resp['Body'].read().decode('utf-8')
 
-            if content != self.lock_id:
+            if not self._owns(content):
                 logger.warning(f"Lost S3 lock at {self.key} (content mismatch). Stopping heartbeat.")
                 self.is_locked = False
                 return
@@ -457,7 +472,7 @@ class S3PollingLockProvider(S3LockProviderBase):
             self.s3.put_object(
                 Bucket=self.bucket,
                 Key=self.key,
-                Body=self.lock_id.encode('utf-8')
+                Body=self._lock_body()
             )
             self._lease_deadline = write_started + self.lease_seconds
             logger.debug(f"Renewed S3 lock at {self.key}")
